@@ -203,10 +203,15 @@ func (v *view) note(op Op, o Out) {
 	switch op.T {
 	case "memset":
 		if o.C == "root" {
+			// an empty MemSet keeps what already waits under the hash (LoadOrStore)
+			if len(op.KV) > 0 {
+				v.withTree[o.Tok] = true
+			} else if !has(v.pending, o.Tok) {
+				v.withTree[o.Tok] = false
+			}
 			if !has(v.pending, o.Tok) {
 				v.pending = append(v.pending, o.Tok)
 			}
-			v.withTree[o.Tok] = len(op.KV) > 0
 			v.dead = del(v.dead, o.Tok)
 			v.updates++
 			if len(op.KV) > 0 {
@@ -252,7 +257,8 @@ func (v *view) note(op Op, o Out) {
 	}
 }
 
-// pending tokens whose tree exists only in the table (an empty MemSet on them is finding 1)
+// pending tokens whose tree exists only in the table (an empty MemSet on them was finding 1:
+// it replaced the tree by the marker; fixed in chain33, the tree is kept)
 func (v *view) fragile() []int {
 	var out []int
 	for _, t := range v.pending {
